@@ -292,15 +292,19 @@ class Run(object):
         if k == "appendFrame":
             db.frames.append(self.objs[op[2]])
             return None, None
-        if k == "removeFrame":
-            db.remove_frame(self.objs[op[2]])
-            return None, None
-        if k == "delFrame":
-            db.del_frame(self.objs[op[2]])
-            return None, None
-        if k == "delFrameByName":
-            db.del_frame(op[2])
-            return None, None
+        if k in ("removeFrame", "delFrame", "delFrameByName"):
+            pre = self.snap(op[1])
+            self.post = pre          # a call that raises leaves the matrix as it was
+            try:
+                if k == "removeFrame":
+                    db.remove_frame(self.objs[op[2]])
+                elif k == "delFrame":
+                    db.del_frame(self.objs[op[2]])
+                else:
+                    db.del_frame(op[2])
+            finally:
+                self.post = self.snap(op[1])
+            return None, pre
         if k == "renameFrame":
             db.rename_frame(op[2], op[3])
             return None, None
@@ -335,17 +339,19 @@ def observe(case):
     if case["op"] == "hdr":
         return observe_hdr(case["c"])
     r = Run()
-    outs, snaps = [], []
+    outs, snaps, posts = [], [], []
     for op in case["c"]["ops"]:
+        r.post = None
         try:
             o, s = r.do(op)
         except (ValueError, AttributeError, IndexError) as e:
             if isinstance(e, IndexError):
                 raise
-            o, s = "raised", None
+            o, s = "raised", (r.snap(op[1]) if op[0] in ("removeFrame", "delFrame", "delFrameByName") and r.post is not None else None)
         outs.append(o)
         snaps.append(s)
-    return {"outs": outs, "snaps": snaps}
+        posts.append(r.post)
+    return {"outs": outs, "snaps": snaps, "post": posts}
 
 
 def project(impl):
